@@ -15,6 +15,7 @@ const hookMode = "verif"
 type obsState struct {
 	mu     sync.Mutex
 	on     bool
+	off    bool // concurrent workloads: per-call observation is meaningless
 	calls  []Mac
 	n      int
 	limit  int                                             // abort the call after this many constructions (0 = off)
@@ -120,6 +121,10 @@ func obsBegin(limit int) {
 func obsEnd() ([]Mac, int) {
 	obs.mu.Lock()
 	defer obs.mu.Unlock()
+	if !hooksInstalled || obs.off {
+		obs.on = false
+		return []Mac{}, -1
+	}
 	obs.on = false
 	c := obs.calls
 	if c == nil {
